@@ -94,9 +94,51 @@ class Neither:
         return iter([1])
 
 
+_KEEP = []   # referents of live weak proxies
+
+
+def _dead_proxy():
+    import weakref
+    o = DerivedMapping()
+    p = weakref.proxy(o)
+    del o
+    import gc
+    gc.collect()
+    return p
+
+
+def _live_proxy(factory):
+    import weakref
+    o = factory()
+    _KEEP.append(o)
+    del _KEEP[:-8]
+    return weakref.proxy(o)
+
+
+def _transient(kind):
+    """A value of a class that is created for this value only (and garbage-collected with it)."""
+    import gc
+    gc.collect()   # earlier transient classes die here: their address can be recycled by the class created now
+    if kind == "mapping":
+        cls = type("TransientMapping", (DerivedMapping,), {})
+        return cls({"k": 1})
+    if kind == "seq":
+        cls = type("TransientSeq", (DerivedSeq,), {})
+        return cls([1, 2])
+    cls = type("TransientPlain", (Base,), {})
+    return cls()
+
+
 def pool(with_numpy=True):
     """name -> factory of a fresh value."""
     p = collections.OrderedDict()
+    p["deadproxy"] = _dead_proxy
+    p["liveproxy_mapping"] = lambda: _live_proxy(DerivedMapping)
+    p["liveproxy_seq"] = lambda: _live_proxy(DerivedSeq)
+    p["liveproxy_obj"] = lambda: _live_proxy(PlainObj)
+    p["transient_mapping"] = lambda: _transient("mapping")
+    p["transient_seq"] = lambda: _transient("seq")
+    p["transient_plain"] = lambda: _transient("plain")
     p["none"] = lambda: None
     p["true"] = lambda: True
     p["int"] = lambda: 7
@@ -187,7 +229,9 @@ def shape(x, SC):
         return (type(x).__name__, [shape(v, SC) for v in x])
     if isinstance(x, float) and x != x:
         return ("float", "nan")
-    return (type(x).__name__, repr(x))
+    if x is None or isinstance(x, (str, int, float, bool, bytes, complex)):
+        return (type(x).__name__, repr(x))
+    return (type(x).__name__, "<object>")   # no repr(): it may contain a memory address
 
 
 def ops(ns):
@@ -210,6 +254,34 @@ def ops(ns):
             shutil.rmtree(state["dir"], ignore_errors=True)
             state["dir"] = None
     o = collections.OrderedDict()
+    # a user-defined backend that only has a dict-like class (lists stay plain there, by design of _from_base)
+    if "custom" not in state:
+        class MemOnlyCollection(ns.SyncedCollection):
+            _backend = "verif.memonly"
+
+            def __init__(self, **kw):
+                super().__init__(**kw)
+
+            def _load_from_resource(self):
+                return None
+
+            def _save_to_resource(self):
+                pass
+
+        class MemOnlyDict(MemOnlyCollection, ns.SyncedDict):
+            def __init__(self, data=None, parent=None, *a, **kw):
+                super().__init__(data=data, parent=parent, *a, **kw)
+        state["custom"] = MemOnlyDict
+    MemOnlyDict = state["custom"]
+
+    def custom_setitem(v):
+        def f():
+            d = MemOnlyDict()
+            d["k"] = v
+            d["l"] = [v]
+            return shape(d, SC)
+        return outcome_of(f)
+    o["custom_backend.setitem"] = custom_setitem
     o["json_format_validator"] = lambda v: outcome_of(lambda: val.json_format_validator(v))
     o["require_string_key"] = lambda v: outcome_of(lambda: val.require_string_key(v))
     o["no_dot_in_key"] = lambda v: outcome_of(lambda: val.no_dot_in_key(v))
